@@ -23,7 +23,7 @@ RULE = (
     "for float and curved operands. Contact configurations and xor of crossing float/curved operands (open "
     "findings) are excluded and counted. Non-trivial: the operand boundaries cross."
 )
-MANDATORY = ["exact", "capped", "float", "curved", "crossing", "identity:union-intersection", "identity:difference", "identity:xor", "identity:complement"]
+MANDATORY = ["operands-with-history", "exact", "capped", "float", "curved", "crossing", "identity:union-intersection", "identity:difference", "identity:xor", "identity:complement"]
 MOMENTS = [(0, 0), (1, 0), (0, 1), (2, 0), (1, 1), (0, 2)]
 KNOWN_CLASSES = c01.KNOWN_CLASSES
 
@@ -86,13 +86,15 @@ def judge(ctx, case):
     rational = not curved and all(rg.curve_is_exact(c) for c in ca + cb)
     regime = _exact_regime(ca, cb) if rational else ("curved" if curved else "float")
     strata = [regime, "kind:" + sa["k"], "kind:" + sb["k"]] + (["crossing"] if ncross else [])
+    if case.get("pre_a") and rational:
+        strata.append("operands-with-history")
     ctx.evaluated(case, ncross > 0, strata)
     where = regime
     results = {}
     try:
         with call_limit(400):
             for op in ("|", "&", "-") + (() if skip_xor else ("^",)):
-                A, B = lib.build(sa), lib.build(sb)
+                A, B = oc.build_operand(sa, case.get("pre_a")), oc.build_operand(sb, case.get("pre_b"))
                 results[op] = oc.apply_op(op, A, B)
             A, B = lib.build(sa), lib.build(sb)
             results["~"] = ~A
